@@ -12,6 +12,7 @@
                      Fiber.pmd = pmd_coef * sqrt(L); FiberParams latency = L / (c / n1), a function of length only.
  R4 dispersion     : Fiber.chromatic_dispersion is proportional to the length; composed with beta2 at the reference
                      frequency it gives back D(f_ref) * L for the three ways D is specified; freq=None = f_ref.
+ Rm memo          : every memoisation construct in the functions behind this property is keyed by everything it reads.
 """
 import ast
 
@@ -306,4 +307,9 @@ def r4_cd(ctx):
     ctx.need('R4.cd', 6)
 
 
-RULES = [('R4.cd', r4_cd), ('R1.once', r1_once), ('R2.budget', r2_budget), ('R3.accumulators', r3_accumulators)]
+
+from ..memo import rule_for as _memo_rule
+
+RULES_MEMO = ('Rm.memo', _memo_rule('C05', 'the loss or dispersion of another fibre configuration would be applied'))
+
+RULES = [('R4.cd', r4_cd), ('R1.once', r1_once), ('R2.budget', r2_budget), ('R3.accumulators', r3_accumulators), RULES_MEMO]
